@@ -83,3 +83,46 @@ c04_weibull!(c04_weibull_f64, f64);
 //@ funcs: Weibull::<f32>::new
 //@ bounds: every pair of f32 bit patterns
 c04_weibull!(c04_weibull_f32, f32);
+
+// ---- C07 ----------------------------------------------------------------------------------------
+macro_rules! c07_weibull {
+    ($name:ident, $f:ty, $oc:ident) => {
+        vproof_free! {
+            fn $name() {
+                let mut rng = SymRng::new(1);
+                let w0 = rng.words[0];
+                let scale: $f = kani::any();
+                let sel: u8 = kani::any();
+                let (shape, inv): ($f, $f) = match sel & 3 { 0 => (2.0, 0.5), 1 => (0.25, 4.0), 2 => (1.0, 1.0), _ => (8.0, 0.125) };
+                let d = match Weibull::<$f>::new(scale, shape) { Ok(d) => d, Err(_) => return };
+                vassert!(d.inv_shape == inv, "Weibull: inv_shape is not 1/shape");
+                let x: $f = d.sample(&mut rng);
+                vassert!(rng.pos == 1, "Weibull: number of words consumed depends on the parameters");
+                vassert!(flog_n() == 2, "Weibull: expected one logarithm and one power");
+                let (a0, _, r0) = flog_get(0);
+                let (b, e, g) = flog_get(1);
+                vassert!(a0 == $oc(w0) as f64, "Weibull: logarithm is not taken of the OpenClosed01 draw");
+                vassert!(biteq64(b, -r0), "Weibull: base of the power is not -ln(u)");
+                vassert!(e == inv as f64, "Weibull: exponent is not 1/shape");
+                vassert!(biteq64(x as f64, (scale * (g as $f)) as f64), "Weibull: sample is not scale * g");
+                kani::cover!(g == 2.0, "g = 2");
+            }
+        }
+    };
+}
+//@ id: c07_weibull_f64
+//@ prop: C07
+//@ tier: quick
+//@ cap: 900
+//@ funcs: Weibull::<f64>::new (inv_shape); Weibull::<f64>::sample
+//@ bounds: every accepted scale, shape in {1/4, 1, 2, 8}; every word; g over the free-stub value set
+//@ assumes: libm::log, libm::pow replaced by free logging stubs
+c07_weibull!(c07_weibull_f64, f64, oc01_64);
+//@ id: c07_weibull_f32
+//@ prop: C07
+//@ tier: quick
+//@ cap: 900
+//@ funcs: Weibull::<f32>::new; Weibull::<f32>::sample
+//@ bounds: as c07_weibull_f64
+//@ assumes: libm::logf, libm::powf replaced by free logging stubs
+c07_weibull!(c07_weibull_f32, f32, oc01_32);
